@@ -50,11 +50,15 @@ def c04(rep, tier):
     def mismatch(c):
         return c.get('k') == 'bin' and c['op'] == '!=' and any(strip_casts(x).get('d') == tparam['d'] for x in (c['l'], c['r'])) and \
             any((strip_casts(x).get('callee') or '').endswith('::lookahead') for x in (c['l'], c['r']))
-    okb = len(pushes) == 1 and guarded(g, pushes[0], mismatch, True)
+    def matches(c):
+        return c.get('k') == 'bin' and c['op'] == '==' and any(strip_casts(x).get('d') == tparam['d'] for x in (c['l'], c['r'])) and \
+            any((strip_casts(x).get('callee') or '').endswith('::lookahead') for x in (c['l'], c['r']))
+    okb = len(pushes) == 1 and (guarded(g, pushes[0], mismatch, True) or guarded(g, pushes[0], matches, False))
     if okb:
         # on the mismatch path the push happens on every path (not nested further)
-        skips = [ev for ev in g.events if ev.e.get('k') == 'un' and ev.e['op'] == '++']
-        okb = all(g.dominates(pushes[0], s) or not guarded(g, s, mismatch, True) for s in skips)
+        skips = [ev for ev in g.events if (ev.e.get('k') == 'un' and ev.e['op'] == '++') or
+                 (ev.e.get('k') == 'call' and ev.e.get('callee_in_repo') and (ev.e.get('callee') or '').startswith('ParseState::'))]
+        okb = all(g.dominates(pushes[0], s) or not (guarded(g, s, mismatch, True) or guarded(g, s, matches, False)) for s in skips)
     B.check(okb, 'ParseState::match: mismatch', 'errors.push_back(...) under lookahead() != t, before skipping', 'a token mismatch is not recorded as an error',
             'Compiler/src/parse.cpp:%d' % mt['loc'][1])
     # ---------------------------------------------------------------- c
@@ -103,7 +107,13 @@ def c04(rep, tier):
         after = [x for x in emits_call if gv.can_follow(ev, x)]
         return not after, ev
     ok1, ev1 = err_then_return('UNKNOWN_PROGRAM_NAME')
-    okg1 = ev1 is not None and guarded(gv, ev1, lambda c: (c.get('k') == 'call' and c.get('op') == '==' and 'funcAddrs.find' in show(c) and 'funcAddrs.end()' in show(c)), True)
+    def notfound(c):
+        if not (c.get('k') in ('call', 'bin') and c.get('op') == '=='):
+            return False
+        ops = (([c['obj']] if c.get('obj') is not None else []) + list(c.get('args') or [])) if c.get('k') == 'call' else [c['l'], c['r']]
+        txt = [show(m.origin(dv, x)) for x in ops]
+        return any('funcAddrs.find' in t for t in txt) and any('funcAddrs.end()' in t for t in txt)
+    okg1 = ev1 is not None and guarded(gv, ev1, notfound, True)
     E.check(ok1 and okg1, 'dispatchValue: unknown program', 'failed lookup -> UNKNOWN_PROGRAM_NAME, no call sequence emitted afterwards',
             'a call of an undefined program is not rejected', 'Compiler/src/gen.cpp:%d' % dv['loc'][1])
     ok2, ev2 = err_then_return('ARGSIZE_MISMATCH')
@@ -132,11 +142,15 @@ def c04(rep, tier):
                 if any(isinstance(l, dict) and l.get('name') == 'NUMBER' for l in c['labels']):
                     calls = [e for s in c['s'] for e in walk_all_exprs(s) if e.get('k') == 'call' and e.get('callee_in_repo') and 'strToInt' in (e.get('callee') or '')]
                     if len(calls) == 1:
-                        conv = [f for f in gf.functions if f['q'] == calls[0]['callee']]
-                        if conv:
-                            from .props_gen import checked_conversion
-                            inner = [e for e in walk_all_exprs(conv[0]['body']) if e.get('k') == 'call' and (e.get('callee') or '') in ('strtol', 'std::strtol', 'std::stoi', 'std::stol')]
-                            num_ok = bool(inner) and checked_conversion(MG.gm, conv[0], inner[0])[0]
+                        from .props_gen import checked_conversion, conversion_sites
+                        sites = [(f2, c2) for f2, c2 in conversion_sites(gf, ('gen.cpp',)) if f2['q'] == calls[0]['callee']]
+                        res = [checked_conversion(MG.gm, f2, c2)[0] for f2, c2 in sites]
+                        num_ok = bool(res) and all(r is True for r in res)
+                        if any(r is None for r in res):
+                            num_ok = None
+    if num_ok is None:
+        E.unknown('dispatchValue: literal range', 'the range test of the literal conversion compares with a value the checker cannot evaluate')
+        num_ok = True
     E.check(num_ok, 'dispatchValue: literal range', 'NUMBER -> conversion that records an error for values >= 2^31-1', 'an out-of-range literal is accepted silently',
             'Compiler/src/gen.cpp:%d' % dv['loc'][1])
 
